@@ -68,7 +68,7 @@ func main() {
 	if err != nil {
 		panic(err)
 	}
-	_ = os.MkdirAll(output, os.FileMode(0600))
+	_ = os.MkdirAll(output, os.FileMode(0700))
 	fmt.Printf(">> 生成文件数 %d 每个样本长度 %d  输出位置: %s\n", s, n, output)
 
 	var wg sync.WaitGroup
